@@ -413,6 +413,27 @@ Section Cache.
     end.
 End Cache.
 
+(* ============================================================== (D) QGauss.integrate dispatch *)
+(* def integrate(self, xvals, yvals_or_func, npts=None): which integrator the second argument is
+   sent to.  Repaired code: callable(yvals_or_func); unchanged code ([orig]): isinstance(..,
+   (FunctionType, MethodType)).  [ykind]: what python object the caller passed. *)
+Inductive ykind :=
+  | YFunction | YLambda | YMethod                         (* FunctionType / MethodType *)
+  | YUfunc | YPartial | YBuiltin | YVectorize | YCallableObject   (* callable, not FunctionType *)
+  | YArray | YList | YTuple.                               (* tabulated y values: not callable *)
+Inductive route := RFunc | RData.
+
+Definition is_callable (k : ykind) : bool :=
+  match k with YArray | YList | YTuple => false | _ => true end.
+Definition is_plain_function (k : ykind) : bool :=
+  match k with YFunction | YLambda | YMethod => true | _ => false end.
+Definition dispatch (orig : bool) (k : ykind) : route :=
+  if (if orig then is_plain_function k else is_callable k) then RFunc else RData.
+Definition route_eqb (a b : route) : bool :=
+  match a, b with RFunc, RFunc | RData, RData => true | _, _ => false end.
+(* known class of the unchanged dispatch: a function integrand that is not FunctionType/MethodType *)
+Definition kf_callable_not_function (k : ykind) : bool := is_callable k && negb (is_plain_function k).
+
 (* ============================================================== (R) real-number models *)
 Module RM.
 Local Open Scope R_scope.
